@@ -15,6 +15,9 @@ fn engine_for(prop: &str) -> Option<Box<dyn Engine>> {
         "C05" => Some(Box::new(env::EnvEngine::new(env::EnvProp::C05))),
         "C07" => Some(Box::new(env::EnvEngine::new(env::EnvProp::C07))),
         "C08" => Some(Box::new(env::EnvEngine::new(env::EnvProp::C08))),
+        "C09" => Some(Box::new(world::WorldEngine { prop: world::WorldProp::C09 })),
+        "C11" => Some(Box::new(world::WorldEngine { prop: world::WorldProp::C11 })),
+        "C12" => Some(Box::new(world::WorldEngine { prop: world::WorldProp::C12 })),
         _ => None,
     }
 }
@@ -125,6 +128,56 @@ fn main() {
         }
         "selftest" => match args.get(2).map(|s| s.as_str()) {
             Some("canary") => println!("canary ok"),
+            Some("determinism") => {
+                // every case is generated twice and decided twice; the generated case, the
+                // verdict, the fired fault/probe counters, the abstract states and the
+                // distinctness key must be identical (exit 2 otherwise: a harness bug)
+                driver::silence_panics();
+                let n: u64 = args.get(3).and_then(|s| s.parse().ok()).unwrap_or(300);
+                let seed = driver::seed_from_env();
+                let mut bad = 0u64;
+                for prop in ["C05", "C07", "C08", "C09", "C11", "C12"] {
+                    let eng = engine_for(prop).unwrap();
+                    let (en, rn) = eng.plan(false);
+                    let mut done = 0u64;
+                    for i in 0..n {
+                        // spread over the enumerated and the random tier
+                        let k = if i % 2 == 0 { (i / 2) % (en + rn) } else { en + (i * 7919) % rn.max(1) };
+                        let c1 = eng.case(k, seed, false);
+                        let c2 = eng.case(k, seed, false);
+                        if c1 != c2 {
+                            println!("{} case {}: generated differently twice", prop, k);
+                            bad += 1;
+                            continue;
+                        }
+                        let (r1, r2) = match (eng.check(&c1), eng.check(&c2)) {
+                            (Ok(a), Ok(b)) => (a, b),
+                            _ => {
+                                println!("{} case {}: harness error", prop, k);
+                                bad += 1;
+                                continue;
+                            }
+                        };
+                        let sig = |r: &engine::RunResult| r.violation.as_ref().map(|v| v.signature.clone());
+                        if sig(&r1) != sig(&r2)
+                            || r1.stats.fired != r2.stats.fired
+                            || r1.stats.states != r2.stats.states
+                            || r1.stats.distinct_key != r2.stats.distinct_key
+                            || r1.stats.silent != r2.stats.silent
+                        {
+                            println!("{} case {}: two executions of the same case differ", prop, k);
+                            bad += 1;
+                        }
+                        done += 1;
+                    }
+                    println!("determinism {}: {} cases executed twice", prop, done);
+                }
+                if bad > 0 {
+                    eprintln!("HARNESS ERROR: {} nondeterministic case(s)", bad);
+                    std::process::exit(2);
+                }
+                println!("determinism ok");
+            }
             _ => usage(),
         },
         _ => usage(),
